@@ -149,7 +149,7 @@ def op_faults_for(driver, cmd, tier):
     quick = tier == "quick"
     fs = list(LINK_FAULTS_ACR122 if driver == "acr122" else LINK_FAULTS_PN53X)
     if driver == "rcs380" and cmd in ("InCommRF", "TgCommRF"):
-        fs += [("CommStatus", m) for m in range(4096) if bin(m).count("1") <= (1 if quick else 2)]
+        fs += [("CommStatus", m) for m in range(4096) if not quick or bin(m).count("1") <= 1]
     if op_has_status(driver, cmd):
         fs += [("ChipStatus", s) for s in (QUICK_OP_STATUS if quick else range(256))]
     if cmd == "InListPassiveTarget":
